@@ -235,6 +235,7 @@ func runC03(r *mon.Run) {
 	r.FloorFam("collude-extraR0", 10)
 	r.FloorFam("collude-disclose0", 10)
 	r.FloorFam("collude-split0", 10)
+	r.FloorFam("collude-crt", 10)
 }
 
 // c03Collude: member a is proved honestly for secret s_a; member b holds s_b != s_a and tries to present the same secret-key response.
@@ -288,6 +289,42 @@ func c03Collude(r *mon.Run, jr *rand.Rand, shape string, keys []*world.Key, cred
 		dis, hid := hiddenOf(creds[b], []int{0, 1})
 		p := refimpl.NewDProver(pk, creds[b].C.Signature, dis, hid)
 		run("collude-disclose0", "b discloses attr0", p)
+		if creds[a] != nil && creds[a].C.Signature.E.Cmp(creds[b].C.Signature.E) != 0 {
+			// pooled secrets + malleability in base R_0: (A*R0^t, e, v) is a signature over s - t*e. With M = s_a mod e_a
+			// = s_b mod e_b (CRT) both credentials are re-expressed over the one value M and shown with one identical,
+			// genuinely computed response rs + c*M; only its size (about 2*l_e bits) distinguishes it.
+			ea, eb := creds[a].C.Signature.E, creds[b].C.Signature.E
+			inv := new(big.Int).ModInverse(ea, eb)
+			if inv != nil {
+				// M = s_a + e_a * ((s_b - s_a) * e_a^-1 mod e_b)
+				k := new(big.Int).Mod(mul(sub(secrets[b], secrets[a]), inv), eb)
+				M := add(secrets[a], mul(ea, k))
+				for _, shift := range []int64{0, 1} {
+					Mk := add(M, mul(bi(shift), mul(ea, eb)))
+					maul := func(i int) *refimpl.DProver {
+						sg := creds[i].C.Signature
+						t := new(big.Int).Quo(sub(secrets[i], Mk), sg.E)
+						A2 := new(big.Int).Mod(mul(sg.A, refimpl.PowSigned(keys[i].PK.R[0], t, keys[i].PK.N)), keys[i].PK.N)
+						dis, hid := hiddenOf(creds[i], []int{1})
+						hid[0] = cp(Mk)
+						pr := refimpl.NewDProver(keys[i].PK, &gabi.CLSignature{A: A2, E: cp(sg.E), V: cp(sg.V)}, dis, hid)
+						pr.R[0] = rs
+						return pr
+					}
+					list, _ := refimpl.ProveList([]refimpl.Prover{maul(a), maul(b)}, ctx, nonce, false)
+					for _, lab := range [][]int{nil, {0, 0}} {
+						d := fmt.Sprintf("%s a=%d b=%d both signatures re-expressed over the CRT value M+%d*e_a*e_b (%d bits) labels=%v", shape, a, b, shift, Mk.BitLen(), lab)
+						r.Distinct("collude-crt", d)
+						ok, pv, stack := verifyList(cloneList(list), pks, ctx, nonce, false, labelsOf(lab))
+						r.Eval("collude-crt", outcome(ok, pv))
+						if pv != nil {
+							r.PanicSeen(mon.PanicSite(stack))
+						}
+						c03Oracle(r, "collude-crt", d, ok, sec, lab, list, pks)
+					}
+				}
+			}
+		}
 		if creds[a] != nil {
 			// both disclose attribute 0 entirely
 			disA, hidA := hiddenOf(creds[a], []int{0, 1})
